@@ -211,7 +211,7 @@ def main():
             out.append("step_group!(%s, [%s]);\n" % (gname, ", ".join("f_" + x["name"].lower() for x in chunk)))
             reg["groups"][gname] = [x["name"] for x in chunk]
             for x in chunk:
-                reg["forms"][x["name"]] = {"prop": x["prop"], "group": gname, "call": x["call"]}
+                reg["forms"][x["name"]] = {"prop": x["prop"], "group": gname, "call": x["call"], "pre": x["pre"]}
     here = os.path.dirname(os.path.abspath(__file__))
     open(os.path.join(here, "forms_gen.rs"), "w").write("".join(out))
     os.makedirs(os.path.join(here, "..", "lib"), exist_ok=True)
